@@ -13,6 +13,7 @@ import (
 	"path/filepath"
 	"strings"
 	gosync "sync"
+	"sync/atomic"
 	"time"
 
 	"github.com/brutella/hc"
@@ -45,6 +46,20 @@ type wireConn struct {
 	// incoming ciphertext, delivered one piece per socket Read; the arrival of each piece is a scheduling point
 	in     [][]byte
 	remote string
+}
+
+// stallConn is a socket whose FIRST write takes a long (real) time.
+type stallConn struct {
+	wireConn
+	stall time.Duration
+	n     int32
+}
+
+func (f *stallConn) Write(b []byte) (int, error) {
+	if atomic.AddInt32(&f.n, 1) == 1 {
+		time.Sleep(f.stall)
+	}
+	return f.wireConn.Write(b)
 }
 
 type timeoutError struct{}
@@ -604,9 +619,18 @@ func racePass(c *fw.Ctx) {
 		c.Note("free-running -race pass skipped: " + bin + " not built")
 		return
 	}
-	cmd := exec.Command(bin, "freerun")
+	// the pass normally takes a few seconds; writers that block each other forever must not hang the check
+	tctx, cancel := gocontext.WithTimeout(gocontext.Background(), 5*time.Minute)
+	defer cancel()
+	cmd := exec.CommandContext(tctx, bin, "freerun")
 	cmd.Env = append(os.Environ(), "GORACE=exitcode=66 halt_on_error=0")
 	out, err := cmd.CombinedOutput()
+	if tctx.Err() != nil {
+		c.Eval(1)
+		c.Class("race-pass:hang")
+		c.Report("free-running-hang", "free-running concurrent writers (one of them against a peer that stalls for 3.5 s) did not finish within 5 minutes: writers block each other, payloads never reach the peer — last output: "+lastLine(string(out)), Case{Writers: [][]int{{-1}}})
+		return
+	}
 	c.Eval(1)
 	c.State(1)
 	c.Transition(1)
@@ -704,6 +728,28 @@ func FreeRun() {
 			}
 		}
 	}
+	// a peer that stalls for seconds in the middle of a write (a slow or sleeping controller): the writers that
+	// arrive meanwhile wait, nobody overtakes, nobody gives up
+	{
+		fc := &stallConn{stall: 3500 * time.Millisecond}
+		conn := setup(fc)
+		var wg gosync.WaitGroup
+		var want [][]byte
+		for w, n := range []int{1500, 40, 300} {
+			want = append(want, payload(w, 0, n))
+			wg.Add(1)
+			go func(w, n int) {
+				defer wg.Done()
+				time.Sleep(time.Duration(w) * 150 * time.Millisecond)
+				conn.Write(payload(w, 0, n))
+			}(w, n)
+		}
+		wg.Wait()
+		if sym, desc := judge(fc.wire, want); sym != "" {
+			fails++
+			fmt.Println("ORACLE-FAIL", "stalled-peer/"+sym, desc)
+		}
+	}
 	fmt.Printf("free-running: %d iterations of 4 writers x 2 writes + the reader + a writer on another connection, %d oracle failures\n", iters, fails)
 }
 
@@ -738,7 +784,7 @@ func init() {
 	fw.Register(&fw.Check{
 		ID:    "C08",
 		Level: "model_checking",
-		Rule:  "stateless exploration of goroutine interleavings under a cooperative scheduler with iterative preemption bounding: 2–5 writer goroutines × 1–3 Connection.Write calls with one- and two-frame payloads, keep-alive rounds sent by hap.KeepAlive itself, and EVENTs written by the notifyListener of a real (not started) IP transport after an application value change, over a socket that stalls in the middle of every write (a write deadline armed meanwhile expires for the write in flight), the connection's own reader opening an incoming two-frame request whose ciphertext arrives in five pieces (each arrival a scheduling point) while writes are in flight, and a writer on another connection of the same accessory, on a real hap.Connection with a real secure session; scheduling points = every Lock of a sync.Mutex/RWMutex and every Wait of a sync.Cond in packages hap and crypto (import rewritten to a shim through go build -overlay) and every socket Write; per schedule the captured wire must decrypt front to back with counters in arrival order (reference AEAD) and be a sequence of whole payloads (the same for the other connection's wire), and the reader must get the request intact. 2-writer scenarios unbounded, larger ones preemption bound 2 (thorough: unbounded / 3). Plus the same questions at STATEMENT granularity (subprocess built with a scheduling point before every statement of hc's packages, preemption bound 1 / 2): two writers on one connection, a writer and the reader, writers on two connections, a write that notifies another connection. Plus a free-running pass of the same bodies in a -race build. distinct_nontrivial = distinct (scenario, wire record order) outcomes — more than one per scenario means writers really collided",
+		Rule:  "stateless exploration of goroutine interleavings under a cooperative scheduler with iterative preemption bounding: 2–5 writer goroutines × 1–3 Connection.Write calls with one- and two-frame payloads, keep-alive rounds sent by hap.KeepAlive itself, and EVENTs written by the notifyListener of a real (not started) IP transport after an application value change, over a socket that stalls in the middle of every write (a write deadline armed meanwhile expires for the write in flight), the connection's own reader opening an incoming two-frame request whose ciphertext arrives in five pieces (each arrival a scheduling point) while writes are in flight, and a writer on another connection of the same accessory, on a real hap.Connection with a real secure session; scheduling points = every Lock of a sync.Mutex/RWMutex and every Wait of a sync.Cond in packages hap and crypto (import rewritten to a shim through go build -overlay) and every socket Write; per schedule the captured wire must decrypt front to back with counters in arrival order (reference AEAD) and be a sequence of whole payloads (the same for the other connection's wire), and the reader must get the request intact. 2-writer scenarios unbounded, larger ones preemption bound 2 (thorough: unbounded / 3). Plus the same questions at STATEMENT granularity (subprocess built with a scheduling point before every statement of hc's packages, preemption bound 1 / 2): two writers on one connection, a writer and the reader, writers on two connections, a write that notifies another connection. Plus a free-running pass of the same bodies in a -race build, with one run against a peer that stalls for 3.5 s (real time) in the middle of a write while two more writers arrive. distinct_nontrivial = distinct (scenario, wire record order) outcomes — more than one per scenario means writers really collided",
 		Shards: func(t string) int {
 			if t == "thorough" {
 				return 16
